@@ -70,18 +70,27 @@ def make_args_unique(a: ast.Lambda) -> ast.Lambda:
             # Default values are evaluated in the scope enclosing the lambda: rename inside them
             # before this lambda's own parameters come into scope.
             new_defaults = [self.visit(d) for d in node.args.defaults]
+            new_kw_defaults = [
+                self.visit(d) if d is not None else None for d in node.args.kw_defaults
+            ]
 
-            for old, new in mapping:
+            # Parameters that are not plain ones keep their names, and hide outer names too
+            others = [a.arg for a in node.args.posonlyargs + node.args.kwonlyargs]
+            others += [a.arg for a in (node.args.vararg, node.args.kwarg) if a is not None]
+            in_scope = mapping + [(name, name) for name in others]
+
+            for old, new in in_scope:
                 self._arg_stack.append((old, new))
 
             new_body = self.visit(node.body)
 
-            for arg in node.args.args:
+            for _ in in_scope:
                 self._arg_stack.pop()
 
             r = ast.Lambda(args=copy.copy(node.args), body=new_body)
             r.args.args = [ast.arg(arg=new, annotation=None) for old, new in mapping]
             r.args.defaults = new_defaults
+            r.args.kw_defaults = new_kw_defaults
 
             return r
 
@@ -127,6 +136,22 @@ class FuncADLIndexError(Exception):
 
     def __init__(self, msg):
         Exception.__init__(self, msg)
+
+
+def _is_resolvable_lambda_call(node: ast.Call):
+    """
+    Determine if this is a call of a lambda we can resolve: one that has only plain parameters
+    (no positional-only, keyword-only, `*args` or `**kwargs` ones) and that is called without
+    `*` or `**` arguments.
+    """
+    if type(node.func) is not ast.Lambda:
+        return False
+    a = node.func.args
+    if a.posonlyargs or a.vararg or a.kwonlyargs or a.kwarg:
+        return False
+    if any(isinstance(arg, ast.Starred) for arg in node.args):
+        return False
+    return all(k.arg is not None for k in node.keywords)
 
 
 def _is_method_call_on_first(node: ast.Call):
@@ -453,7 +478,7 @@ class simplify_chained_calls(FuncADLNodeTransformer):
 
         Also, if this is a First() call, then move the call inside it.
         """
-        if type(call_node.func) is ast.Lambda:
+        if _is_resolvable_lambda_call(call_node):
             arg_asts = [self.visit(a) for a in call_node.args]
             # Give the parameters names that occur nowhere else: an argument may mention a name
             # equal to a parameter's, and parts of the body are visited more than once.
@@ -479,6 +504,18 @@ class simplify_chained_calls(FuncADLNodeTransformer):
                         self._arg_stack.define_name(a_name.arg, default_asts[i_arg - n_no_default])
                 # Now, evaluate the expression, and then lift it.
                 return self.visit(func.body)
+        elif type(call_node.func) is ast.Lambda:
+            # A called lambda we cannot resolve stays a call. Its plain parameters are renamed
+            # like those of any other lambda, so the call's keyword arguments follow the new names.
+            old_names = [a.arg for a in call_node.func.args.args]
+            new_call = FuncADLNodeTransformer.visit_Call(self, call_node)
+            if isinstance(new_call, ast.Call) and isinstance(new_call.func, ast.Lambda):
+                renamed = {o: a.arg for o, a in zip(old_names, new_call.func.args.args)}
+                new_call.keywords = [
+                    ast.keyword(arg=renamed.get(k.arg, k.arg), value=k.value)  # type: ignore
+                    for k in new_call.keywords
+                ]
+            return new_call
         elif _is_method_call_on_first(call_node):
             return self.select_method_call_on_first(call_node)
         elif isinstance(call_node.func, ast.Attribute):
